@@ -1,9 +1,19 @@
 //! dsim: deterministic simulation scenarios over the std build of the in-tree dasp crates.
+mod buffered;
+mod bus;
+mod fork;
+mod probe;
 mod ringbuf;
 
 use simcore::Scenario;
 
 fn main() {
-    let scens: Vec<&dyn Scenario> = vec![&ringbuf::BoundedScenario, &ringbuf::FixedScenario];
+    let scens: Vec<&dyn Scenario> = vec![
+        &ringbuf::BoundedScenario,
+        &ringbuf::FixedScenario,
+        &bus::BusScenario,
+        &fork::ForkScenario,
+        &buffered::BufferedScenario,
+    ];
     simcore::cli::main(&scens)
 }
